@@ -4,7 +4,7 @@ C04 — Register caching is observationally transparent.
 Property theorems only.  Vocabulary (`Coherent`, `Declared`, `PortDeclared`, `HistOk`,
 `LogSub`, `Inv`, `Rel`) is in `CamVerif.Spec.CacheSpec`; the model
 (`CamVerif.Model.Cache`) is the register/cache layer of `cameleon-genapi` after the repairs
-of F-C04-1 and F-C04-2; helper lemmas are in `CamVerif.Proofs.C04{Store,Inv,Sim,Ops,Keeps}`.
+of F-C04-1 and F-C04-2; helper lemmas are in `CamVerif.Proofs.C04{Store,Inv,Sim,Ops,Keeps,Via}`.
 
 Everything is quantified over every description `g` with `Declared p g`, every device
 (image, static rejection ranges, rejected write ordinals, prior log), every history and both
@@ -22,7 +22,7 @@ Which theorem needs what: `sim`, `log_sub`, `prim_preserve*` need `Declared` (+ 
 the NoCache theorems need only `NoCacheAbsent`, proved for every description and history
 (`nocache_absent_invariant`); `own_write_visible` needs nothing.
 -/
-import CamVerif.Proofs.C04Keeps
+import CamVerif.Proofs.C04Via
 namespace CamVerif.C04
 open CamVerif CamVerif.Cache
 
@@ -439,6 +439,149 @@ theorem feature_invalidate_clears_listers {g : Graph} {s : St Store} (hT : Table
   rw [get_invalidateBy, if_pos (hT t rt f ht hf)]
 
 example : TableOk exGraph (initDefault exGraph exDev).cache := buildStore_table exGraph
+
+/-! ## 7. Feature-level declarations: "… or a feature node through which the write is issued"
+
+`DeclaredFor p g h` (decidable, `Cache.declaredForB`): operation by operation, every register
+write the operation can issue is declared by each cachable register `t` it may overlap through
+the writing register, its port, or a feature node through which THIS operation issues the
+write — `IntegerNode::set_value` (`integer.rs:99`), `EnumerationNode::set_entry_by_value`
+(`enumeration.rs:141`), `BooleanNode::set_value` (`boolean.rs:90`), `CommandNode::execute`
+(`command.rs:60`) each call `invalidate_cache_by(self)` before forwarding along `pValue` /
+`pValueCopy`.  The feature counts only for registers outside the operation's footprint (what it
+writes, and the selector registers it reads for the addresses): the code does NOT invalidate
+again after re-populating such a register on the way. -/
+
+/-- A cached register (node 1) that lists ONLY the Integer feature above the register that
+overlaps it (node 2, address 1 inside node 1's range); a Command and a Boolean on top of the
+Integer. -/
+def exGraphV : Graph :=
+  [ .port,
+    .reg ⟨.int .le .unsigned, 0, none, 2, .writeThrough, .rw, [3], 0⟩,
+    .reg ⟨.int .le .unsigned, 1, none, 1, .noCache, .rw, [], 0⟩,
+    .integer 2 [],
+    .command 3 7,
+    .boolean 3 5 6 ]
+
+def exHistV : List Op :=
+  [.value 1, .setValue 3 (.int 9), .value 1, .execute 4, .value 1, .setValue 5 (.bool true), .value 1]
+
+/-- not declared in the narrow sense, declared for histories that write through the features,
+not declared for a direct write of the register below the feature -/
+example : ¬ Declared Profile.dev exGraphV := by decide
+example : DeclaredFor Profile.dev exGraphV exHistV ∧ DeclaredFor Profile.release exGraphV exHistV := by
+  decide
+example : ¬ DeclaredFor Profile.dev exGraphV [.value 1, .setValue 2 (.int 9), .value 1] := by decide
+example : ¬ DeclaredFor Profile.dev exGraphV [.value 1, .write 2 [9], .value 1] := by decide
+
+/-- `Declared` + `HistOk` is the special case that uses no feature-level declaration. -/
+theorem declared_implies_declaredFor {p : Profile} {g : Graph} (hD : Declared p g) (h : List Op)
+    (hH : HistOk g h) : DeclaredFor p g h :=
+  declaredFor_of_declared hD h hH
+
+/-- **sim, feature-level declarations included**: for every description, device (image and
+rejection plan) and history with `DeclaredFor p g h`, the cached and the uncached build return
+identical results and leave identical device bytes — from any related pair of states. -/
+theorem sim_via_from {p : Profile} {g : Graph} (h : List Op) (hH : DeclaredFor p g h)
+    {sC : St Store} {sU : St Unit} (hR : Rel p g sC sU) :
+    (runHist defaultCache p g sC h).1 = (runHist sinkCache p g sU h).1 ∧
+      (runHist defaultCache p g sC h).2.dev.mem = (runHist sinkCache p g sU h).2.dev.mem ∧
+      Rel p g (runHist defaultCache p g sC h).2 (runHist sinkCache p g sU h).2 :=
+  have := sim_runHist_via h hH hR
+  ⟨this.1, this.2.1.mem, this.2⟩
+
+theorem sim_via (p : Profile) (g : Graph) (d : Dev) (h : List Op) (hH : DeclaredFor p g h) :
+    (runHist defaultCache p g (initDefault g d) h).1 = (runHist sinkCache p g (initSink d) h).1 ∧
+      (runHist defaultCache p g (initDefault g d) h).2.dev.mem =
+        (runHist sinkCache p g (initSink d) h).2.dev.mem :=
+  have := sim_via_from h hH (rel_init p g d)
+  ⟨this.1, this.2.1⟩
+
+/-- **log_sub, feature-level declarations included**: the cached log is the uncached log minus
+some successful reads (never more accesses, same write attempts). -/
+theorem log_sub_via (p : Profile) (g : Graph) (d : Dev) (h : List Op) (hH : DeclaredFor p g h) :
+    LogSub (runHist defaultCache p g (initDefault g d) h).2.dev.log
+      (runHist sinkCache p g (initSink d) h).2.dev.log :=
+  (sim_via_from h hH (rel_init p g d)).2.2.1.log
+
+/-- every declared operation preserves coherence (`Inv`), feature-level declarations included -/
+theorem prim_preserve_via {p : Profile} {g : Graph} {s : St Store} (hI : Inv p g s.cache s.dev)
+    (op : Op) (hop : opOk p g op = true) :
+    Coherent (run defaultCache p g s op).2.cache (run defaultCache p g s op).2.dev ∧
+      Inv p g (run defaultCache p g s op).2.cache (run defaultCache p g s op).2.dev :=
+  have h := (sim_run_via op hop (rel_self hI)).2.2
+  ⟨h.coherent, h⟩
+
+/-- the example: through the Integer, the Command and the Boolean the cached register is
+re-read from the device each time; the direct write of the register below (not `DeclaredFor`)
+really is stale with the cache — the hypothesis is needed -/
+example :
+    (runHist defaultCache Profile.dev exGraphV
+      (initDefault exGraphV ⟨[1, 2, 0xAA, 0xBB], [], [], [], [], 0, []⟩) exHistV).1 =
+      [.ok (.int 0x0201), .ok .unit, .ok (.int 0x0901), .ok .unit, .ok (.int 0x0701), .ok .unit,
+       .ok (.int 0x0501)] := by
+  decide +kernel
+
+example :
+    (runHist defaultCache Profile.dev exGraphV
+      (initDefault exGraphV ⟨[1, 2, 0xAA, 0xBB], [], [], [], [], 0, []⟩)
+      [.value 1, .setValue 2 (.int 9), .value 1]).1 ≠
+    (runHist sinkCache Profile.dev exGraphV
+      (initSink ⟨[1, 2, 0xAA, 0xBB], [], [], [], [], 0, []⟩)
+      [.value 1, .setValue 2 (.int 9), .value 1]).1 := by
+  decide +kernel
+
+/-! ## 8. Access queries under the cache (`is_readable` / `is_writable` with controllers)
+
+`Op.isReadable` / `Op.isWritable` evaluate `pIsImplemented` / `pIsAvailable` / `pIsLocked`
+(`utils::bool_from_id`: a Boolean node's value, else an integer node's value `!= 0`) and the
+`pValue` chain through the SAME cached read path; `is_done` consults `is_readable` of its target.
+They are ordinary operations of `runHist`, so `sim`, `sim_via`, `log_sub` and
+`nocache_absent_invariant` cover histories that contain them. -/
+
+/-- Taken alone, an access query is transparent on EVERY description — it writes nothing, so no
+declaration is needed: equal answers (or error classes), related final states. -/
+theorem access_queries_transparent {p : Profile} {g : Graph} (n : NodeId) {sC : St Store}
+    {sU : St Unit} (hR : Rel p g sC sU) :
+    ((run defaultCache p g sC (.isReadable n)).1 = (run sinkCache p g sU (.isReadable n)).1 ∧
+      Rel p g (run defaultCache p g sC (.isReadable n)).2 (run sinkCache p g sU (.isReadable n)).2) ∧
+    ((run defaultCache p g sC (.isWritable n)).1 = (run sinkCache p g sU (.isWritable n)).1 ∧
+      Rel p g (run defaultCache p g sC (.isWritable n)).2 (run sinkCache p g sU (.isWritable n)).2) :=
+  ⟨run_of_sim (sim_opIsReadable (fuelOf g) n) hR, run_of_sim (sim_opIsWritable (fuelOf g) n) hR⟩
+
+/-- A register (node 2) available while node 1 is non-zero and locked by a Boolean over node 1;
+an Integer (node 4) implemented per the Boolean and locked by node 1.  Trailing pseudo node: the
+controller table. -/
+def exGraphC : Graph :=
+  [ .port,
+    .reg ⟨.int .le .unsigned, 0, none, 1, .writeThrough, .rw, [], 0⟩,
+    .reg ⟨.int .le .unsigned, 1, none, 1, .writeThrough, .rw, [], 0⟩,
+    .boolean 1 1 0,
+    .integer 2 [],
+    .ctls [(2, (none, some 1, some 3)), (4, (some 3, none, some 1))] ]
+
+def exHistC : List Op :=
+  [.isReadable 2, .isWritable 2, .isReadable 4, .isWritable 4, .setValue 1 (.int 0), .isReadable 2,
+   .isWritable 4, .isReadable 2]
+
+example : Declared Profile.dev exGraphC ∧ HistOk exGraphC exHistC := by
+  refine ⟨by decide, ?_⟩
+  intro n a d h
+  simp [exHistC] at h
+
+/-- the answers follow the controllers (and change when the controlling register is written);
+the cached run needs 2 device accesses, the uncached one 11 -/
+example :
+    (runHist defaultCache Profile.dev exGraphC
+      (initDefault exGraphC ⟨[1, 0, 0xAA, 0xBB], [], [], [], [], 0, []⟩) exHistC).1 =
+      [.ok (.bool true), .ok (.bool false), .ok (.bool true), .ok (.bool false), .ok .unit,
+       .ok (.bool false), .ok (.bool false), .ok (.bool false)] := by
+  decide +kernel
+
+example :
+    (runHist defaultCache Profile.dev exGraphC
+      (initDefault exGraphC ⟨[1, 0, 0xAA, 0xBB], [], [], [], [], 0, []⟩) exHistC).2.dev.log.length = 2 := by
+  decide +kernel
 
 /-- the partially applied, rejected write that used to fail (F-C04-3): WriteThrough register,
 read `0x11111111`, `set_value(0x22222222)` on a device that applies two bytes and then reports an
